@@ -58,6 +58,10 @@ def gen(ch):
     g = Gen(ch, cfg, "")
     nitems = ch.draw(7)
     items = g.items(nitems)
+    if nitems >= 2 and ch.chance(1, 8):
+        # the source delivers the very same object twice in a row (a stream repeating its last reading)
+        k = ch.draw(nitems - 1)
+        items[k + 1] = items[k]
     if sc.lock:
         g.all_suspend = not ch.chance(1, 4)
         cfg.max_susp = max(cfg.max_susp, 1)
@@ -101,6 +105,8 @@ class State:
 
 
 def check_retention(st):
+    if st.has_repeats:
+        return  # (an object still to be delivered again is alive because of that: lifetimes say nothing then)
     refs = st.src.refs
     live = [len(st.yields[c]) for c in range(st.n) if not st.done[c]]
     m = min(live) if live else len(refs)
@@ -207,6 +213,7 @@ def execute(st_, ctx):
     st.retention = None
     st.in_next = [False] * sc.n
     st.closing = [False] * sc.n
+    st.has_repeats = len({id(i) for i in sc.src.items}) < len(sc.src.items)
     st.cancel_closes = sc.cancel_closes
     st.probes = out.probes
     tasks = []
@@ -278,6 +285,10 @@ def execute(st_, ctx):
                             dict(describe(), child=ci, delivered=delivered_uids))
             elif fin == "stop" and len(ys) != len(delivered_uids):
                 out.violate("C09.lost_item", (sig_lock,), dict(describe(), child=ci, delivered=delivered_uids))
+            elif fin == "stop" and not src.exhausted and not src.killed and not src.failed:
+                # a child was told "the end" although the source never reported its end (a source that survives a
+                # cancelled fetch - class-based ones do - goes on serving the other children)
+                out.violate("C09.child_ended_before_the_source", (sig_lock,), dict(describe(), child=ci, delivered=delivered_uids))
         # the tee fetches an item only when some child needs it: at quiescence the source has delivered exactly as many
         # items as the most advanced child yielded (one more at most if a consumer was cancelled between fetching and
         # yielding) - a child that waited at the lock finds the item in its buffer instead of fetching the next one
